@@ -259,27 +259,178 @@ func c37UntilReady(f *pgproto3.Frontend) (rows int, errMsg string, err error) {
 
 // ---------- reference semantics ----------
 
-func c37Glob(pattern, s string) bool {
-	// '*' matches any run of characters except '/', '?' one character; enough for the alphabet used
-	if pattern == "" {
-		return s == ""
+// Reference glob, written from the definition of the pattern language the proxy hands its ACL
+// patterns to (Go path.Match):
+//
+//	'*'                  any run of characters other than '/'
+//	'?'                  one character other than '/'
+//	'[' ['^'] range+ ']' one character in (not in, with '^') the non-empty list of ranges;
+//	                     range = c | lo '-' hi, where c may be written '\\' c and must be so written
+//	                     when it is '-', ']' or '\\'
+//	'\\' c               the character c
+//	c                    the character c
+//
+// c37ParseGlob returns ok=false for a malformed pattern (unterminated or empty class, trailing
+// backslash, unescaped '-' or ']' as a range bound). What a malformed pattern means is not
+// documented; the harness uses none.
+type c37Term struct {
+	kind   byte // '*', '?', 'c' literal, '[' class
+	ch     rune
+	neg    bool
+	ranges [][2]rune
+}
+
+func c37ParseGlob(pattern string) ([]c37Term, bool) {
+	r := []rune(pattern)
+	var out []c37Term
+	bound := func(i int) (rune, int, bool) { // one range bound starting at r[i]
+		if i >= len(r) {
+			return 0, i, false
+		}
+		switch r[i] {
+		case '\\':
+			if i+1 >= len(r) {
+				return 0, i, false
+			}
+			return r[i+1], i + 2, true
+		case '-', ']':
+			return 0, i, false
+		}
+		return r[i], i + 1, true
 	}
-	switch pattern[0] {
-	case '*':
+	for i := 0; i < len(r); {
+		switch r[i] {
+		case '*':
+			out = append(out, c37Term{kind: '*'})
+			i++
+		case '?':
+			out = append(out, c37Term{kind: '?'})
+			i++
+		case '\\':
+			if i+1 >= len(r) {
+				return nil, false
+			}
+			out = append(out, c37Term{kind: 'c', ch: r[i+1]})
+			i += 2
+		case '[':
+			t := c37Term{kind: '['}
+			i++
+			if i < len(r) && r[i] == '^' {
+				t.neg = true
+				i++
+			}
+			for {
+				if i >= len(r) {
+					return nil, false
+				}
+				if r[i] == ']' && len(t.ranges) > 0 {
+					i++
+					break
+				}
+				lo, j, ok := bound(i)
+				if !ok {
+					return nil, false
+				}
+				hi := lo
+				if j < len(r) && r[j] == '-' {
+					if hi, j, ok = bound(j + 1); !ok {
+						return nil, false
+					}
+				}
+				t.ranges = append(t.ranges, [2]rune{lo, hi})
+				i = j
+			}
+			out = append(out, t)
+		default:
+			out = append(out, c37Term{kind: 'c', ch: r[i]})
+			i++
+		}
+	}
+	return out, true
+}
+
+func c37MatchTerms(terms []c37Term, s []rune) bool {
+	if len(terms) == 0 {
+		return len(s) == 0
+	}
+	t := terms[0]
+	if t.kind == '*' {
 		for i := 0; i <= len(s); i++ {
 			if i > 0 && s[i-1] == '/' {
 				break
 			}
-			if c37Glob(pattern[1:], s[i:]) {
+			if c37MatchTerms(terms[1:], s[i:]) {
 				return true
 			}
 		}
 		return false
-	case '?':
-		return s != "" && s[0] != '/' && c37Glob(pattern[1:], s[1:])
-	default:
-		return s != "" && s[0] == pattern[0] && c37Glob(pattern[1:], s[1:])
 	}
+	if len(s) == 0 {
+		return false
+	}
+	switch t.kind {
+	case '?':
+		if s[0] == '/' {
+			return false
+		}
+	case 'c':
+		if s[0] != t.ch {
+			return false
+		}
+	case '[':
+		in := false
+		for _, rg := range t.ranges {
+			if rg[0] <= s[0] && s[0] <= rg[1] {
+				in = true
+			}
+		}
+		if in == t.neg {
+			return false
+		}
+	}
+	return c37MatchTerms(terms[1:], s[1:])
+}
+
+func c37Glob(pattern, s string) bool {
+	terms, ok := c37ParseGlob(pattern)
+	if !ok {
+		return false
+	}
+	return c37MatchTerms(terms, []rune(s))
+}
+
+// c37PatternKind names the glob features a pattern uses beyond exact names, '*' and a trailing '*'.
+func c37PatternKind(p string) string {
+	switch {
+	case strings.Contains(p, "["):
+		return "class"
+	case strings.Contains(p, "\\"):
+		return "escape"
+	case strings.Contains(p, "?"):
+		return "question-mark"
+	}
+	return ""
+}
+
+// c37DenialKind: why the reference ACL does not allow topic, as a key suffix, when the deciding
+// pattern uses a character class, an escape or '?' ("" otherwise, so that the keys of cases over
+// plain patterns stay what they were).
+func c37DenialKind(allow, deny []string, topic string) string {
+	for _, p := range deny {
+		p = strings.TrimSpace(p)
+		if p != "" && c37Match([]string{p}, topic) {
+			if k := c37PatternKind(p); k != "" {
+				return ":deny-pattern-" + k
+			}
+			return ""
+		}
+	}
+	for _, p := range allow {
+		if k := c37PatternKind(strings.TrimSpace(p)); k != "" {
+			return ":outside-allow-pattern-" + k
+		}
+	}
+	return ""
 }
 
 func c37Match(patterns []string, topic string) bool {
@@ -458,6 +609,13 @@ var c37PadChars = []string{" "}
 
 type c37ACL struct{ Allow, Deny []string }
 
+// c37ACLs: the product of plain allow and deny lists (exact names, '*', trailing '*'), then the
+// other features of the pattern language - character class with a set / a range / a negation,
+// backslash escape, '?' - each once in a deny list (the pattern matches exactly the topic secret,
+// which the allow list names) and once in an allow list (the pattern matches exactly the topic
+// ok; okx is matched by nothing); a class in the deny list under an empty allow list; a class in
+// the allow list with nothing denied; one mixed ACL. None of the class / escape patterns
+// contains '*' or '?': they are globs through the class or the escape alone.
 var c37ACLs = func() []c37ACL {
 	allows := [][]string{nil, {"ok"}, {"ok*"}, {"*"}, {"ok", "secret"}}
 	denies := [][]string{nil, {"secret"}, {"sec*"}, {"*"}}
@@ -467,8 +625,49 @@ var c37ACLs = func() []c37ACL {
 			out = append(out, c37ACL{Allow: a, Deny: d})
 		}
 	}
+	out = append(out,
+		c37ACL{Allow: nil, Deny: []string{"secre[st]"}},
+		c37ACL{Allow: []string{"ok", "secre[t]"}},
+		c37ACL{Allow: []string{"o[jk]", "secret"}, Deny: []string{"secr[e]t"}},
+		c37ACL{Allow: []string{"[a-o]k", "secret"}, Deny: []string{"s[a-f]cret"}},
+		c37ACL{Allow: []string{"[^s]k", "secret"}, Deny: []string{"[^o]ecret"}},
+		c37ACL{Allow: []string{`o\k`, "secret"}, Deny: []string{`secre\t`}},
+		c37ACL{Allow: []string{"o?", "secret"}, Deny: []string{"s?cret"}},
+		c37ACL{Allow: []string{"ok?", "[n-p]k", "s*"}, Deny: []string{"o[k]x", `\s\e\c\r\e\t`}},
+	)
 	return out
 }()
+
+// c37CheckACLs: every pattern of the ACL list must be well formed, and the class / escape / '?'
+// patterns must decide the topics the way the comment above says (a harness self-check on the
+// reference matcher, independent of the code under test).
+func c37CheckACLs() error {
+	for _, acl := range c37ACLs {
+		for _, p := range append(append([]string{}, acl.Allow...), acl.Deny...) {
+			if _, ok := c37ParseGlob(p); !ok {
+				return fmt.Errorf("malformed pattern %q in the ACL list", p)
+			}
+		}
+	}
+	want := map[string]string{ // pattern -> topics of c37Topics it matches
+		"secre[st]": "secret", "secr[e]t": "secret", "s*": "secret", "s[a-f]cret": "secret", "[^o]ecret": "secret", `secre\t`: "secret", "s?cret": "secret",
+		"o[jk]": "ok", "[a-o]k": "ok", "[^s]k": "ok", `o\k`: "ok", "o?": "ok", "secre[t]": "secret",
+		"ok?": "okx", "[n-p]k": "ok", "o[k]x": "okx", `\s\e\c\r\e\t`: "secret",
+		"ok": "ok", "ok*": "ok,okx", "*": "ok,secret,okx", "sec*": "secret",
+	}
+	for p, w := range want {
+		var got []string
+		for _, t := range c37Topics {
+			if c37Glob(p, t) {
+				got = append(got, t)
+			}
+		}
+		if strings.Join(got, ",") != w {
+			return fmt.Errorf("reference matcher: pattern %q matches %q, expected %q", p, got, w)
+		}
+	}
+	return nil
+}
 
 func c37Fill(parts []string, a, b string) []string {
 	out := make([]string, len(parts))
@@ -689,7 +888,7 @@ func c37Judge(up *c37Upstream, c c37Case, obs []c37Obs) (sig string, nontrivial 
 			}
 			switch {
 			case len(bad) > 0:
-				key := "forwarded-query-reads-denied-topic"
+				key := "forwarded-query-reads-denied-topic" + c37DenialKind(c.Allow, c.Deny, bad[0])
 				why := "the forwarded text names them and the proxy let it through"
 				switch mech {
 				case "truncated":
@@ -715,7 +914,7 @@ func c37Judge(up *c37Upstream, c c37Case, obs []c37Obs) (sig string, nontrivial 
 				// and sizes, partitions): the upstream "reads" them without downloading a segment, so for these
 				// statement types the topics are taken from the upstream's own parser on the forwarded text
 				if kind, denied := c37MetadataQueryDenied(c.Allow, c.Deny, f); kind != "" {
-					viols = append(viols, c37Viol{Key: "metadata-query-forwarded-for-denied-topic:" + kind, Case: one,
+					viols = append(viols, c37Viol{Key: "metadata-query-forwarded-for-denied-topic:" + kind + c37DenialKind(c.Allow, c.Deny, denied[0]), Case: one,
 						Detail: fmt.Sprintf("ACL allow=%q deny=%q: forwarded %q, a %s whose topics %q are not allowed (the upstream answered with %d rows / error %q) [%s]", c.Allow, c.Deny, c37Short(f), kind, denied, o.Rows, o.ClientErr, c.Label)})
 					state += "+metadata-of-denied-topic"
 				}
@@ -758,11 +957,11 @@ func c37Short(s string) string {
 func TestVerifC37(t *testing.T) {
 	rep := vh.New(t, "C37")
 	defer rep.Finish()
-	rep.Rule = "case = (ACL, decision cache on/off, session of 1-2 query texts) run client -> real proxy handleConn -> recording tee -> real upstream server -> loopback S3. Texts = 17 templates x topics {ok,secret,okx} x (no padding | space padding after each part so that the next part starts at byte 500/511/512/513/600 | a long column list before FROM). Outcome signature = per query forwarded/denied + topics whose segments the upstream downloaded + oracle flags, with the template/padding label. Non-trivial = the proxy denied the query, or forwarded it and the upstream downloaded >= 1 segment."
+	rep.Rule = "case = (ACL, decision cache on/off, session of 1-2 query texts) run client -> real proxy handleConn -> recording tee -> real upstream server -> loopback S3. ACLs = 5 plain allow lists x 4 plain deny lists (exact names, '*', trailing '*') + 8 ACLs whose allow and deny lists use the other features of the pattern language (character class with a set / range / negation, backslash escape, '?'), each once per list. Texts = 17 templates x topics {ok,secret,okx} x (no padding | space padding after each part so that the next part starts at byte 500/511/512/513/600 | a long column list before FROM). Outcome signature = per query forwarded/denied + topics whose segments the upstream downloaded + oracle flags, with the template/padding label. Non-trivial = the proxy denied the query, or forwarded it and the upstream downloaded >= 1 segment."
 	rep.Assumptions = []string{
 		"topics read = topics whose segment objects (.kfs) the upstream fetched in full (decoding); the footer probes and listing that discovery performs on every topic for every query are not reads",
 		"EXPLAIN / SHOW PARTITIONS / DESCRIBE download no segment but answer with facts about the named topics: for these statement types the topics read are the ones the upstream's own parser finds in the forwarded text",
-		"reference ACL: deny wins; empty allow list allows every topic that is not denied; patterns are exact names, '*' and globs",
+		"reference ACL: deny wins; empty allow list allows every topic that is not denied; a pattern is an exact name, '*', or a glob in the language the proxy hands its patterns to (path.Match: '*', '?', [set], [lo-hi], [^...], backslash escape), matched by a reference matcher written from that definition; malformed patterns (meaning undocumented) are not used",
 		"over-denial (the proxy refusing a text it could have forwarded) is not a violation of this property",
 	}
 	t.Setenv("AWS_ACCESS_KEY_ID", "verif")
@@ -797,6 +996,9 @@ func TestVerifC37(t *testing.T) {
 		return
 	}
 
+	if err := c37CheckACLs(); err != nil {
+		t.Fatalf("HARNESS-ERROR %v", err)
+	}
 	// ---- the case list (simplest first) ----
 	if vh.Thorough() {
 		c37PadTargets = []int{255, 500, 509, 510, 511, 512, 513, 514, 515, 600, 1024}
@@ -819,6 +1021,7 @@ func TestVerifC37(t *testing.T) {
 		}
 	}
 	rep.SetInfo("acls", len(c37ACLs))
+	rep.SetInfo("acl_list", c37ACLs)
 	rep.SetInfo("texts", len(texts))
 	rep.SetInfo("two_query_sessions", len(sessions))
 	rep.SetInfo("pad_targets", c37PadTargets)
